@@ -23,6 +23,40 @@ DEFAULT = dict(mc={}, nodes=(1, 3), procs=(1, 4), p_fault=0.35, p_link=0.3, p_cr
                ops=(6, 18), p_clock=0.15, p_rand=0.1, seeds=12)
 
 
+FRAC = [fbits(x) for x in (0.1, 0.2, 0.3, 0.6, 0.7, 0.1, 0.2)]
+
+
+def gen_near_ties(rng):
+    """C06: timers whose due times are nearly equal doubles (0.6 + 0.2 = 0.8 but 0.7 + 0.1 = 0.7999999999999999;
+    0.1 + 0.2 = 0.30000000000000004 > 0.3): each must fire exactly at set time + delay, in time order"""
+    nn = rng.choice([1, 1, 2])
+    nodes = [f"n{i}" for i in range(nn)]
+    procs = [f"p{i}" for i in range(nn)]
+    seed = rng.randrange(DEFAULT["seeds"])
+    lines = [f"seed {seed}", f"draws {draws_for(seed)}"] + [f"node {n}" for n in nodes] + [f"proc {p} {n}" for p, n in zip(procs, nodes)]
+    a, c, b, e = rng.choice([(0.6, 0.2, 0.7, 0.1), (0.7, 0.1, 0.6, 0.2), (0.1, 0.2, 0.3, 0.0), (0.3, 0.0, 0.1, 0.2),
+                             (0.2, 0.1, 0.3, 0.0), (0.6, 0.1, 0.7, 0.0), (0.1, 0.7, 0.6, 0.2)])
+    for p in procs:
+        q = rng.choice(procs)
+        first = [f"T:t0:{fbits(a)}", f"T:t1:{fbits(b)}"]
+        rng.shuffle(first)
+        lines.append(f"rule {p} 0 L:m0 0 " + " ".join(first))
+        lines.append(f"rule {p} 0 T:t0 0 {rng.choice(['T', 'O'])}:t2:{fbits(c)} L:m1:=a")
+        lines.append(f"rule {p} 0 T:t1 0 {rng.choice(['T', 'O'])}:t3:{fbits(e)} L:m2:=b" + (f" S:m3:=c:{q}" if rng.random() < 0.4 else ""))
+        lines.append(f"rule {p} 0 T:t2 0 L:m4:=x")
+        lines.append(f"rule {p} 0 T:t3 0 L:m5:=y")
+        lines.append(f"rule {p} 0 M:m3 0 L:m6:=z")
+    lines.append(f"net delay {rng.choice([0, 1, fbits(0.1)])}")
+    for p in procs:
+        lines.append(f"local {p} m0 =go")
+    lines.append(rng.choice(["steps 12", "until_none", f"for {fbits(0.8)}\nsteps 8", "steps 3\nsteps 9"]))
+    lines = "\n".join(lines).split("\n")
+    for p in procs:
+        lines.append(f"read {p}")
+    lines.append("obs")
+    return lines
+
+
 def gen_scenario(rng, prof=None):
     prof = dict(DEFAULT, **(prof or {}))
     mprof = mc_suite.profile(**dict(dict(nodes=prof["nodes"], procs=prof["procs"], locals=(1, 3), p_fault=0, p_link=0, p_crash=0, p_mode=0),
@@ -40,6 +74,9 @@ def gen_scenario(rng, prof=None):
         if rng.random() < prof["p_rand"]:
             r += f" R:m{rng.randint(0, 2)}"
         rules2.append(r)
+    if rng.random() < prof.get("p_frac_timers", 0.2):
+        # timer delays that are no multiples of 0.5: due times that differ in the last bits only (0.6 + 0.2 vs 0.7 + 0.1)
+        rules2 = [re.sub(r"\b([TO]:t\d+):(\d+)\b", lambda m: f"{m.group(1)}:{rng.choice(FRAC)}", r) for r in rules2]
     nodes = [l.split()[1] for l in topo if l.startswith("node")]
     procs = [(l.split()[1], l.split()[2], " rec" if l.endswith("rec") else "") for l in topo if l.startswith("proc")]
     seed = rng.randrange(prof["seeds"])
